@@ -15,6 +15,10 @@ structure ColorModel where
   qubitAxis : Coord → Option String
   /-- `get_deformation(location, name, **kwargs)`: keyword arguments are ignored by the classes -/
   getDeformation : String → Coord → Color.DeformResult
+  /-- the explicit independent family of `n − k` stabilizer locations of the class's rank theorem
+      (`C01<Class>.rank_family` / `generators_independent`); `none`: the class has no such theorem
+      (Color3DCode: Z-type half only, op `rankfamilyz`) -/
+  rankFamily : Unit → Option (List Coord) := fun _ => none
 
 def colorShowDeform : Color.DeformResult → String
   | .map m => lat2dShowMap m
@@ -49,6 +53,8 @@ def colorAnswer (m : ColorModel) : List String → Option String
     some (" # ".intercalate [lat2dShowCoords l.qubits, lat2dShowCoords l.stabs, toString c.n,
       toString c.k, lat2dShowOps l.logX, lat2dShowOps l.logZ, mat (stabilizerMatrix c),
       mat (logicalsX c), mat (logicalsZ c)])
+  -- evaluated by the harness on the IMPLEMENTATION's parity-check matrix (members, rank)
+  | ["rankfamily"] => (m.rankFamily ()).map lat2dShowCoords
   | ["n"] => some (toString (m.lat ()).toCodeData.n)
   | ["k"] => some (toString (m.lat ()).toCodeData.k)
   | _ => none
